@@ -3,8 +3,8 @@
    Model: Model/Parser.v (Parse after the two fix: commits), Model/Utf8.v (CleanUTF8, Go's UTF-8 decoder).
    Specification: Spec/SyslogSpec.v (render, PRI, accounting), Spec/Utf8Spec.v (RFC 3629).
    [cfg_ok cfg]: the level mapping has eight names, which NewParser guarantees (C09_new_parser). *)
-From SV Require Import Model.Common Model.Utf8 Model.Parser Spec.Utf8Spec Spec.SyslogSpec
-  Proofs.Utf8Proofs Proofs.ParserProofs.
+From SV Require Import Model.Common Model.Utf8 Model.Parser Model.Composite Spec.Utf8Spec Spec.SyslogSpec
+  Proofs.Utf8Proofs Proofs.ParserProofs Proofs.CompositeProofs.
 Open Scope N_scope.
 
 (* 1. A well-formed line "<PRI>1 time host app pid msgid sd msg" (PRI 0..191 in its RFC form, the six
@@ -185,13 +185,139 @@ Theorem C09_new_parser :
 Proof. exact new_parser_levels. Qed.
 Print Assumptions C09_new_parser.
 
-(* sysloginput's composite parser (parser + extraction transforms) with extractions that keep the record
-   is the parser itself; in general it never panics and never changes the counters. *)
+(* 5b. sysloginput's composite parser (Model/Composite.v): the parser, then the input's extraction transforms, and
+   for a record they drop CountRecordPassToDrop followed by LogAllocator.Release (which zeroes RawLength when the
+   reference count reaches 0).  [extract] is ANY extraction step that does not write RawLength; [refs0] the
+   allocator's initial reference count (number of outputs). *)
+
+(* every byte string, every counter state, every state of the extraction step: no panic; the message is counted
+   exactly once with its byte length - as passed iff a record is returned (RawLength = length), else as dropped,
+   be it the parser or an extraction that refuses it; overflow at most once *)
+Theorem C09_composite_accounting :
+  forall (X : Type) (extract : X -> record -> bool * record * X) refs0 cfg cnt x input,
+  cfg_ok cfg -> (1 <= refs0)%Z -> keeps_raw_length extract ->
+  exists res cnt' x',
+    composite_parse false refs0 extract cfg cnt x input = (Ok res, cnt', x') /\
+    match res with
+    | Some r => counted_passed cnt cnt' (length input) /\ raw_length r = length input
+    | None => counted_dropped_any cnt cnt' (length input)
+    end /\
+    overflow_ok cnt cnt' (length input).
+Proof. exact composite_accounting_lemma. Qed.
+Print Assumptions C09_composite_accounting.
+
+(* the instance for the modelled transforms: any list of drop (any match, percentage, label, running totals) and
+   delFields transforms, any custom counters *)
+Theorem C09_composite_transforms_accounting :
+  forall refs0 cfg cnt xs lab input,
+  cfg_ok cfg -> (1 <= refs0)%Z ->
+  exists res cnt' x',
+    composite_parse false refs0 extract_transforms cfg cnt (xs, lab) input = (Ok res, cnt', x') /\
+    match res with
+    | Some r => counted_passed cnt cnt' (length input) /\ raw_length r = length input
+    | None => counted_dropped_any cnt cnt' (length input)
+    end /\
+    overflow_ok cnt cnt' (length input).
+Proof. exact composite_transforms_accounting_lemma. Qed.
+Print Assumptions C09_composite_transforms_accounting.
+
+Theorem C09_transforms_keep_raw_length : keeps_raw_length extract_transforms.
+Proof. exact extract_transforms_keeps_raw_length. Qed.
+Print Assumptions C09_transforms_keep_raw_length.
+
+(* nil is returned exactly when the parser refuses the message or the extraction drops its record; otherwise the
+   parser's record as the extraction leaves it *)
+Theorem C09_composite_result :
+  forall (X : Type) (extract : X -> record -> bool * record * X) refs0 cfg cnt x input,
+  cfg_ok cfg -> (1 <= refs0)%Z ->
+  fst (fst (composite_parse false refs0 extract cfg cnt x input)) =
+    match fst (parse cfg cnt input) with
+    | Ok (Some r) => if fst (fst (extract x r)) then Ok None else Ok (Some (snd (fst (extract x r))))
+    | o => o
+    end.
+Proof. exact composite_result_lemma. Qed.
+Print Assumptions C09_composite_result.
+
+(* any sequence of messages through one composite parser (counters, transform totals and custom counters carried
+   along): no panic; passed = the messages for which a record was returned, dropped = the others, in number and in
+   bytes; together all messages and all their bytes *)
+Theorem C09_composite_stream_accounting :
+  forall (X : Type) (extract : X -> record -> bool * record * X) refs0 cfg msgs cnt x,
+  cfg_ok cfg -> (1 <= refs0)%Z -> keeps_raw_length extract ->
+  let rs := composite_stream false refs0 extract cfg cnt x msgs in
+  let outs := stream_outs rs in
+  let fin := stream_final rs cnt in
+  length rs = length msgs /\
+  Forall (fun o => is_panic o = false) outs /\
+  passed_n fin = passed_n cnt + delivered_n msgs outs /\
+  passed_bytes fin = passed_bytes cnt + delivered_bytes msgs outs /\
+  dropped_n fin = dropped_n cnt + refused_n msgs outs /\
+  dropped_bytes fin = dropped_bytes cnt + refused_bytes msgs outs /\
+  delivered_n msgs outs + refused_n msgs outs = N.of_nat (length msgs) /\
+  delivered_bytes msgs outs + refused_bytes msgs outs = sum_lengths msgs.
+Proof. exact composite_stream_lemma. Qed.
+Print Assumptions C09_composite_stream_accounting.
+
+(* Release on a record with [refs] references: never the negative-count panic for refs >= 1; the record is
+   cleared (RawLength 0) exactly when the last reference goes *)
+Theorem C09_release :
+  forall r refs, (1 <= refs)%Z ->
+  exists c', release (new_cell refs r) = Ok c' /\ c_refs c' = (refs - 1)%Z /\
+             (refs = 1%Z -> c_rec c' = cleared r) /\ ((1 < refs)%Z -> c_rec c' = r).
+Proof. exact release_spec. Qed.
+Print Assumptions C09_release.
+
+(* the order of the two statements matters: with Release BEFORE CountRecordPassToDrop and one output, for EVERY
+   message whose record an extraction drops, the record count moves to dropped but the bytes stay in passed *)
+Theorem C09_composite_release_first_variant :
+  forall (X : Type) (extract : X -> record -> bool * record * X) cfg cnt x input r c1,
+  cfg_ok cfg -> keeps_raw_length extract ->
+  parse cfg cnt input = (Ok (Some r), c1) -> fst (fst (extract x r)) = true ->
+  exists cnt' x',
+    composite_parse true 1 extract cfg cnt x input = (Ok None, cnt', x') /\
+    passed_n cnt' = passed_n cnt /\ dropped_n cnt' = dropped_n cnt + 1 /\
+    passed_bytes cnt' = passed_bytes cnt + N.of_nat (length input) /\
+    dropped_bytes cnt' = dropped_bytes cnt.
+Proof. exact release_first_lemma. Qed.
+Print Assumptions C09_composite_release_first_variant.
+
+(* ... so the accounting theorem fails for that variant (witness: the unit test's line, drop on app = my-app1) *)
+Theorem C09_composite_release_first_variant_refuted :
+  exists cfg cnt xs input cnt' x',
+    cfg_ok cfg /\
+    composite_parse true 1 extract_transforms cfg cnt (xs, []) input = (Ok None, cnt', x') /\
+    ~ counted_dropped_any cnt cnt' (length input) /\
+    total_bytes cnt' = total_bytes cnt + N.of_nat (length input) /\
+    passed_n cnt' = 0 /\ passed_bytes cnt' = N.of_nat (length input).
+Proof. exact release_first_refuted_lemma. Qed.
+Print Assumptions C09_composite_release_first_variant_refuted.
+
+(* ... while with two or more outputs the first Release does not recycle the record and the variant is the code
+   (why the harness runs the family with ONE output as well as with several) *)
+Theorem C09_composite_release_first_masked :
+  forall (X : Type) (extract : X -> record -> bool * record * X) refs0 cfg cnt x input,
+  (2 <= refs0)%Z ->
+  composite_parse true refs0 extract cfg cnt x input = composite_parse false refs0 extract cfg cnt x input.
+Proof. exact release_first_masked_lemma. Qed.
+Print Assumptions C09_composite_release_first_masked.
+
+(* extractions that never drop and keep the record: the composite parser is the parser *)
 Theorem C09_composite_passthrough :
-  forall extract cfg cnt input,
-  (forall r, extract r = Some r) -> composite_parse extract cfg cnt input = parse cfg cnt input.
+  forall (X : Type) (extract : X -> record -> bool * record * X) rf refs0 cfg cnt x input,
+  (forall x r, extract x r = (false, r, x)) ->
+  composite_parse rf refs0 extract cfg cnt x input = (parse cfg cnt input, x).
 Proof. exact composite_passthrough_lemma. Qed.
 Print Assumptions C09_composite_passthrough.
+
+(* example: the unit test's line through a composite parser with "drop: app = my-app1, 100 %": nil, dropped 1 / 74 bytes,
+   passed 0 / 0, custom counter L1 1 / 74 *)
+Theorem C09_example_composite :
+  cfg_ok example_cfg /\
+  composite_parse false 1 extract_transforms example_cfg counters_zero (example_drop, []) example_line =
+    (Ok None, {| passed_n := 0; passed_bytes := 0; dropped_n := 1; dropped_bytes := 74; overflow_n := 0; overflow_bytes := 0 |},
+     (example_drop, [([76;49], (1, 74))])).
+Proof. exact example_composite_lemma. Qed.
+Print Assumptions C09_example_composite.
 
 (* 6. UTF-8 helper theorems (reused by C15 truncate). *)
 
